@@ -596,6 +596,9 @@ RCP<const Basic> load_basic(Archive &ar, RCP<const And> &)
 {
     set_boolean container;
     ar(container);
+    if (container.size() < 2) {
+        throw SerializationError("And: fewer than two arguments");
+    }
     return make_rcp<const And>(std::move(container));
 }
 template <class Archive>
@@ -603,6 +606,9 @@ RCP<const Basic> load_basic(Archive &ar, RCP<const Or> &)
 {
     set_boolean container;
     ar(container);
+    if (container.size() < 2) {
+        throw SerializationError("Or: fewer than two arguments");
+    }
     return make_rcp<const Or>(std::move(container));
 }
 template <class Archive>
@@ -610,6 +616,9 @@ RCP<const Basic> load_basic(Archive &ar, RCP<const Xor> &)
 {
     vec_boolean container;
     ar(container);
+    if (container.size() < 2) {
+        throw SerializationError("Xor: fewer than two arguments");
+    }
     return make_rcp<const Xor>(std::move(container));
 }
 template <class Archive>
@@ -624,6 +633,9 @@ RCP<const Basic> load_basic(Archive &ar, RCP<const Piecewise> &)
 {
     PiecewiseVec vec;
     ar(vec);
+    if (vec.empty()) {
+        throw SerializationError("Piecewise: no branches");
+    }
     return make_rcp<const Piecewise>(std::move(vec));
 }
 template <class Archive>
@@ -664,6 +676,9 @@ RCP<const Basic> load_basic(Archive &ar, RCP<const Union> &)
 {
     set_set union_set;
     ar(union_set);
+    if (union_set.size() < 2) {
+        throw SerializationError("Union: fewer than two sets");
+    }
     return make_rcp<const Union>(std::move(union_set));
 }
 template <class Archive>
@@ -769,6 +784,10 @@ load_basic(Archive &ar, RCP<const T> &,
 {
     vec_basic args;
     ar(args);
+    if (args.empty()) {
+        // Max, Min, LeviCivita: printing and evaluation read the first argument
+        throw SerializationError("function without arguments");
+    }
     return make_rcp<const T>(std::move(args));
 }
 template <class Archive, class T>
